@@ -463,6 +463,11 @@ class Gen:
             bound = ["explicit", r.choice(["C", "A"])]
         else:
             bound = ["from", [r.choice(tidx) for _ in range(r.randint(0, 4))]]
+            if r.random() < 0.25 and len(tidx) < nparams:
+                # an index list that also names positions which hold no type (the library skips them: they contribute
+                # nothing, and must not stop the positions named after them from being read)
+                others = [i for i in range(nparams) if i not in tidx]
+                bound[1].insert(r.randrange(len(bound[1]) + 1), r.choice(others))
         name = f"D{len(self._defs)}"
         df = {"name": name, "params": params, "bound": bound}
         self._defs[name] = df
